@@ -127,8 +127,11 @@ Proof.
 Qed.
 Theorem tw_is_iff g w : wf_graph g -> (tw_is g w = true <-> tw_perm g = w).
 Proof.
-  intro W. unfold tw_is. rewrite andb_true_iff, negb_true_iff, <- not_true_iff_false.
-  rewrite !(tw_below_iff g _ W). lia.
+  intro W. unfold tw_is.
+  pose proof (tw_below_iff g w W) as H1. pose proof (tw_below_iff g (S w) W) as H2.
+  destruct (tw_below (length g) g w).
+  - split; [discriminate|]. intro E. assert (tw_perm g < w) by (apply H1; reflexivity). lia.
+  - rewrite H2. assert (~ tw_perm g < w) by (intro L; apply H1 in L; discriminate). lia.
 Qed.
 Theorem tw_gt_iff g w : wf_graph g -> (tw_gt g w = true <-> w < tw_perm g).
 Proof.
